@@ -353,3 +353,104 @@ OBLIGATIONS.append(
                 "handler or propagating to the caller), then the legal way back",
          findings=[dict(id="C18-uneven-depth", pred="uneven(par, src, dst) or uneven(par, dst, src)")]))
 ASSUMPTIONS = ["pre-states are constructed (current + active flags of its ancestors); timers of the communication machine are virtual"]
+
+
+# ---- concurrent requests (E3b: statement-level interleavings of the real _perform_transition) -------------------------------
+class ReplayMismatch(Exception):
+    """the schedule found in the statement-level model does not reproduce on real threads: harness problem, not a violation"""
+
+
+from engine import stmt  # noqa: E402
+
+try:    # rewritten from the current source at import time (inspect.getsource is unreliable under CrossHair's tracing)
+    _GEN, _GEN_ERR = stmt.steps(StateMachine._perform_transition), None
+except Exception as _e:  # noqa
+    _GEN, _GEN_ERR = None, _e
+
+
+def _concrete(*xs):
+    for x in xs:
+        if isinstance(x, list):
+            if type(x) is not list or not _concrete(*x):
+                return False
+        elif type(x) not in (int, bool):
+            return False
+    return True
+
+
+def _conc_machine(par, cur, s0, d0, s1, d1):
+    states = _machine(par)
+    sm = StateMachine()
+    trans = [Transition("go", states[s0], states[d0]), Transition("other", states[s1], states[d1])]
+    sm._transitions = trans
+    _set_current(sm, states, states[cur])
+    return sm, states, trans, _Spy(states, trans)
+
+
+def _outcome(sm, states, spy, results):
+    kinds = [(r[0] if r[0] != "exc" else type(r[1]).__name__) for r in results]
+    cur = [i for i, s in enumerate(states) if s is sm.current_state]
+    return (kinds, cur, [s.active for s in states],
+            [spy.count("enter", i) for i in range(len(states))], [spy.count("leave", i) for i in range(len(states))],
+            [spy.count("called", 0), spy.count("called", 1)])
+
+
+def _serial(par, cur, s0, d0, s1, d1, names, first):
+    sm, states, trans, spy = _conc_machine(par, cur, s0, d0, s1, d1)
+    results = [None, None]
+    for t in (first, 1 - first):
+        try:
+            sm._perform_transition(names[t])
+            results[t] = ("ret", None)
+        except (WrongSourceStateError, UnknownTransitionError) as e:
+            results[t] = ("exc", e)
+    return _outcome(sm, states, spy, results)
+
+
+def concurrent_requests(par: List[int], cur: int, s0: int, d0: int, s1: int, d1: int, same: bool, first: int, p1: int, p2: int) -> bool:
+    """
+    pre: len(par) == 5 and par[3] == -1 and par[4] == -1
+    pre: all(-1 <= p < 5 for p in par)
+    pre: 0 <= cur < 3 and 0 <= s0 < 3 and 0 <= d0 < 3 and 0 <= s1 < 3 and 0 <= d1 < 3
+    pre: 0 <= first <= 1 and 0 <= p1 <= p2 <= 40
+    post: _
+    """
+    # two logical threads request "go" (s0 -> d0) and - same: "go" again, else "other" (s1 -> d1) - at the same time; the
+    # scheduler switches between them before the p1-th and the p2-th executed statement of _perform_transition (any two positions:
+    # every schedule with <= 2 preemptions; a run has < 40 statements). Whatever the schedule,
+    # the result must be the result of one of the two serial orders: refusals, final state, flags, every event count.
+    names = ["go", "go" if same else "other"]
+    if _GEN is None:
+        raise _GEN_ERR
+    gen = _GEN
+    sm, states, trans, spy = _conc_machine(par, cur, s0, d0, s1, d1)
+    results, order = stmt.run([lambda: gen(sm, names[0]), lambda: gen(sm, names[1])], first, [p1, p2])
+    got = _outcome(sm, states, spy, results)
+    serial = [_serial(par, cur, s0, d0, s1, d1, names, 0), _serial(par, cur, s0, d0, s1, d1, names, 1)]
+    if got == serial[0] or got == serial[1]:
+        return fin(_active_ok(sm, states))
+    if _concrete(par, cur, s0, d0, s1, d1, same, first, p1, p2):
+        # replay of a counterexample: force the same order of statements on real threads running the real method
+        sm2, states2, trans2, spy2 = _conc_machine(par, cur, s0, d0, s1, d1)
+        res2 = stmt.replay_lines(StateMachine._perform_transition,
+                                 [lambda: sm2._perform_transition(names[0]), lambda: sm2._perform_transition(names[1])], order)
+        real = _outcome(sm2, states2, spy2, [r if r is not None else ("unfinished",) for r in res2])
+        if real == serial[0] or real == serial[1]:
+            raise ReplayMismatch("model outcome %r, real threads %r, order %r" % (got, real, order))
+    return False
+
+
+OBLIGATIONS.append(
+    dict(name="concurrent_requests", fn="concurrent_requests", timeout={"quick": 600, "thorough": 1800},
+         parts={"quick": ["cur == %d and same == True and s0 == %d and s1 == 0 and d1 == 0" % (c, c) for c in range(3)]
+                + ["cur == %d and same == False and s0 == %d and s1 == %d" % (c, c, c) for c in range(3)],
+                "thorough": ["cur == %d and same == %s and s0 == %d" % (c, s, a)
+                             for c in range(3) for s in (True, False) for a in range(3)]},
+         functions=["StateMachine._perform_transition (statement-level generator regenerated from its source by engine/stmt)",
+                    "State.activate/deactivate, Transition.__call__ (atomic callees)"],
+         bounds="two concurrent requests on all forests over 3 states, any current state, transitions s0->d0 and s1->d1 (or the same "
+                "transition twice) - quick: both requests allowed in the current state, thorough: all sources; thread switches before any statement of _perform_transition, <= 2 preemptions; the outcome "
+                "(refusals, current state, active flags, enter/leave/called counts) must equal one of the two serial orders; a "
+                "counterexample is replayed on real threads (sys.monitoring LINE hand-over)",
+         outside="switches inside callees (State.activate/deactivate, handlers); > 2 threads; > 2 preemptions; handlers that "
+                 "request transitions while another thread is active"))
